@@ -62,7 +62,7 @@ LOOPC = ("for (uint32_t si_ = 0; si_ < sketch->n; si_++)\n"
   "__CPROVER_assigns(si_, match_count, count, matched_n, verif_exc, g_find_calls, g_last_find, g_policy_calls, g_e_examined, g_e_looked, g_e_matched, g_broke, g_break_idx, __CPROVER_object_whole(matched_entries))\n"
   "__CPROVER_loop_invariant(si_ <= sketch->n && !g_broke && verif_exc == 0 && count == si_ && match_count <= count && match_count <= max_matches && matched_n == match_count && g_policy_calls == g_pol0 + match_count)\n"
   "__CPROVER_loop_invariant(g_e_examined == (si_ > g_e))\n"
-  "__CPROVER_loop_invariant(g_e_examined ==> (g_e_looked == (sketch->e[g_e] < self->table_.theta_) && g_e_matched == (g_e_looked && g_found)))\n"
+  "__CPROVER_loop_invariant(g_e_examined ==> (g_e_looked == (KEY(sketch->e[g_e]) < self->table_.theta_) && g_e_matched == (g_e_looked && g_found)))\n"
   "__CPROVER_loop_invariant(!g_e_examined ==> (!g_e_looked && !g_e_matched))\n"
   "__CPROVER_decreases(sketch->n - si_)\n"
   "{ const EN entry = sketch->e[si_]; if (si_ == g_e) g_e_examined = 1;")
@@ -74,16 +74,16 @@ HEAD2 = {"raw": r"""
 uint32_t g_pol0;
 /* the matching loop of theta_intersection_base::update (the 'intersection' branch up to the rebuild of the table), extracted as a region */
 void isect_match(struct theta_isect* self, const struct csk* sketch)
-__CPROVER_requires(__CPROVER_is_fresh(self, sizeof(*self)) && WF_SK(sketch) && g_e < sketch->n && g_key == sketch->e[g_e] && !g_e_examined && !g_e_looked && !g_e_matched && !g_broke && verif_exc == 0)
+__CPROVER_requires(__CPROVER_is_fresh(self, sizeof(*self)) && WF_SK(sketch) && g_e < sketch->n && g_key == KEY(sketch->e[g_e]) && !g_e_examined && !g_e_looked && !g_e_matched && !g_broke && verif_exc == 0)
 __CPROVER_requires(g_find_calls < 1000 && g_policy_calls < 1000 && g_pol0 == g_policy_calls)
 __CPROVER_assigns(verif_exc, g_find_calls, g_last_find, g_policy_calls, g_e_examined, g_e_looked, g_e_matched, g_broke, g_break_idx, g_match_count, g_count, g_max_matches)
 /* the scan stops early only on an ordered input and only at an entry that is not below theta */
-__CPROVER_ensures(g_broke ==> (sketch->is_ordered && sketch->e[g_break_idx] >= self->table_.theta_))
+__CPROVER_ensures(g_broke ==> (sketch->is_ordered && KEY(sketch->e[g_break_idx]) >= self->table_.theta_))
 /* accepted: every entry before the stopping point (all entries of an unordered input) was examined */
 __CPROVER_ensures((verif_exc == 0 && (!g_broke || g_e < g_break_idx)) ==> g_e_examined)
 __CPROVER_ensures((verif_exc == 0 && !sketch->is_ordered) ==> (!g_broke && g_count == sketch->n))
 /* an examined entry is looked up exactly if its key is below theta, and is a match exactly if it was looked up and the table holds the key */
-__CPROVER_ensures((verif_exc == 0 && g_e_examined) ==> (g_e_looked == (sketch->e[g_e] < self->table_.theta_) && g_e_matched == (g_e_looked && g_found)))
+__CPROVER_ensures((verif_exc == 0 && g_e_examined) ==> (g_e_looked == (KEY(sketch->e[g_e]) < self->table_.theta_) && g_e_matched == (g_e_looked && g_found)))
 __CPROVER_ensures(!g_e_examined ==> (!g_e_looked && !g_e_matched))
 /* counts: matches <= examined <= retained, matches <= min(table entries, retained); the policy ran once per match */
 __CPROVER_ensures(verif_exc == 0 ==> (g_match_count <= g_count && g_count <= sketch->n && g_match_count <= g_max_matches && g_max_matches == VMIN64(self->table_.num_entries_, sketch->n) && g_policy_calls == g_pol0 + g_match_count))
@@ -139,7 +139,7 @@ HEAD3 = {"raw": r"""
 #define VERIF_UNWIND
 /* the first-update branch of theta_intersection_base::update (copy of the incoming sketch into a fresh table), extracted as a region */
 void isect_first(struct theta_isect* self, const struct csk* sketch)
-__CPROVER_requires(__CPROVER_is_fresh(self, sizeof(*self)) && WF_SK(sketch) && g_e < sketch->n && g_key == sketch->e[g_e] && !g_e_examined && !g_e_matched && verif_exc == 0)
+__CPROVER_requires(__CPROVER_is_fresh(self, sizeof(*self)) && WF_SK(sketch) && g_e < sketch->n && g_key == KEY(sketch->e[g_e]) && !g_e_examined && !g_e_matched && verif_exc == 0)
 __CPROVER_requires(g_find_calls < 1000 && g_insert_calls < 1000 && g_ins0 == g_insert_calls && g_new_calls == 0)
 __CPROVER_assigns(verif_exc, self->is_valid_, self->table_.num_entries_, self->table_.lg_cur_size_, self->table_.lg_nom_size_, g_new_calls, g_find_calls, g_last_find, g_insert_calls, g_e_examined, g_e_matched)
 /* the intersection becomes valid, gets one fresh table, and keeps theta, seed and emptiness */
